@@ -76,7 +76,9 @@ def explore(case):
   bname, kw = SYSTEMS[sysname]
   alg, init = systems.build(bname, **kw)
   from fedjax.core import serialization
-  pop = algos.population([2, 3, 0], case.get('seed', 0))
+  # inplace_pre: client datasets whose preprocessing fn updates the dict it is handed (the clients passed in keep their value)
+  pop = algos.population([2, 3, 0], case.get('seed', 0), inplace_pre=bool(case.get('inplace_pre')))
+  raw_snap = [{k: np.array(v, copy=True) for k, v in ds.raw_examples.items()} for _, ds, _ in pop]
   # a returning client id whose local data changed since its last participation
   other = algos.population([2, 3, 0, 3], case.get('seed', 0) + 5)[3]
   pop.append((pop[0][0], other[1], pop[0][2]))
@@ -107,6 +109,9 @@ def explore(case):
           readable_equal(state, snap, 'after an aborted round', nc)
         new, diag = alg.apply(state, cohort)
         readable_equal(state, snap, 'after apply', nc)
+        for (cid_, ds_, _), rs_ in zip(pop, raw_snap):
+          require(set(ds_.raw_examples) == set(rs_) and all(np.array_equal(np.asarray(ds_.raw_examples[k_]), rs_[k_]) for k_ in rs_),
+                  'the round changed the examples of client %r that was passed in' % (cid_,), case=nc)
         require(sorted(map(repr, diag)) == sorted({repr(c[0]) for c in cohort}), 'the diagnostics do not have exactly one entry per '
                 'participating client (entries of other rounds / other objects leaked in)', sorted({repr(c[0]) for c in cohort}),
                 sorted(map(repr, diag)), case=nc)
@@ -271,7 +276,9 @@ def aggregators(case):
       for r in range(rounds):
         trees = _trees(kind, n, case.get('seed', 0) + r)
         tsnap = algos.tree_np(trees)
-        inputs = [(b'c%d' % i, t, float(i + 1)) for i, t in enumerate(trees)]
+        # weights arrive as Python floats or as writable 0-d NumPy arrays (counts taken out of an array): the caller's objects
+        wobjs = [float(i + 1) if (r + n) % 2 == 0 else np.asarray(i + 1, np.float32) for i in range(len(trees))]
+        inputs = [(b'c%d' % i, t, wobjs[i]) for i, t in enumerate(trees)]
         snap = algos.tree_np(state)
         # an apply whose client stream fails half way must leave nothing behind in the aggregator object
         if n > 1:
@@ -293,6 +300,8 @@ def aggregators(case):
         same(out2, out_snap, 'aggregator.apply with the same inputs and state returned a different aggregate', nc)
         same(new2, new_snap, 'aggregator.apply with the same inputs and state returned a different state', nc)
         readable_equal(trees, tsnap, 'client params after aggregation', nc)
+        require([float(w) for w in wobjs] == [float(i + 1) for i in range(len(trees))], 'a weight object of the caller was modified by the aggregator',
+                [float(i + 1) for i in range(len(trees))], [float(w) for w in wobjs], case=nc)
         fout, fnew = systems.aggregator(name, fresh=True).apply(iter(inputs), state)
         same(fout, out_snap, 'a fresh aggregator object disagrees with the long-lived one', nc)
         same(fnew, new_snap, 'a fresh aggregator object returns a different new state than the long-lived one (state '
@@ -402,6 +411,8 @@ def plan(ctx):
            chunk=1)
   ctx.pmap('ambient', [{'system': sy, 'seed': ctx.seed, 'thread': t} for sy in (('fed_avg', 'fed_prox', 'mime_lite', 'mime') if th else ('fed_avg', 'mime_lite'))
                        for t in (False, True)], chunk=1)
+  ctx.pmap('explore', [{'system': sy, 'depth': 2, 'seed': ctx.seed, 'fresh_depth': 1, 'inplace_pre': True}
+                       for sy in (('mime', 'mime_lite', 'agnostic', 'hyp_cluster', 'fed_avg', 'apfl') if th else ('mime_lite', 'agnostic', 'hyp_cluster'))], chunk=1)
   long_path = ['AB', 'A', 'B', 'BA', 'AC', 'A2', 'AB', 'AB', 'A', 'B', 'AC', 'BA']
   ctx.pmap('explore', [{'system': sy, 'depth': len(long_path), 'history': long_path, 'seed': ctx.seed, 'fresh_depth': 0}
                        for sy in ('fed_avg', 'mime', 'agnostic', 'hyp_cluster', 'apfl')], chunk=1)
